@@ -155,10 +155,11 @@ def preemptions(x, upto=None):
     return n
 
 
-def explore(make_bodies, in_scope, bound, check, first_filter=None, stats=None):
+def explore(make_bodies, in_scope, bound, check, first_filter=None, stats=None, root=()):
     """make_bodies() -> list of thread bodies (fresh state per execution);
     check(execution) is called for every complete execution.
-    first_filter(i) restricts the FIRST deviation point to indices accepted (sharding)."""
+    first_filter(i) restricts the FIRST deviation point to indices accepted (sharding);
+    root: a fixed choice prefix (e.g. which thread starts) below which this call explores."""
     stats = stats if stats is not None else {}
     stats.setdefault('executions', 0)
     stats.setdefault('points', 0)
@@ -182,5 +183,5 @@ def explore(make_bodies, in_scope, bound, check, first_filter=None, stats=None):
                 continue
             for alt in range(1, k):
                 rec(x.choices[:i] + [alt], depth + 1)
-    rec([], 0)
+    rec(list(root), 0)
     return stats
